@@ -43,7 +43,9 @@ class LexerError(ValueError):
     """
 
     def __init__(self, msg, doc, pos, lexeme):
-        self.pos = firstpos(lexeme, pos)
+        # With no pending lexeme, *pos* itself is where parsing failed
+        # (firstpos() of an empty string would point one past it).
+        self.pos = firstpos(lexeme, pos) if len(lexeme) > 0 else pos
         lineno = linecount(doc, self.pos)
         colno = self.pos - doc.rfind("\n", 0, self.pos)
         # Assemble a context string that consists of whole
